@@ -31,6 +31,7 @@ static void refops(const Tables& t, const Sparse& a, const Sparse& b, std::vecto
 static long long g_idx = 0;
 static void check_pair(const Tables& t, const std::vector<double>& a, const std::vector<double>& b, const char* cls, bool all_entry_points) {
   int d = t.d, n = t.n;
+  maybe_pollute(d, 997);
   count("evaluations");
   if (maxabs(a) > 0 && maxabs(b) > 0) { uint64_t h = hashvec(a, d); distinct(hashvec(b, h)); }
   sample_every(g_idx++, 200003, J().str("class", cls).i("d", d).arr("a", a).arr("b", b).done());
